@@ -10,6 +10,8 @@ import (
 	"strings"
 	"time"
 
+	"github.com/NVIDIA/KAI-scheduler/pkg/binder/binding/resourcereservation/group_mutex"
+
 	br "verif/mc/checks/binderrun"
 	"verif/mc/checks/binderrun/syncshim"
 	"verif/mc/engine"
@@ -142,9 +144,24 @@ func runWorker(tier string, cfg tierCfg, idx, n int) int {
 	return 0
 }
 
+// overlayActive reports whether group_mutex.go was built with the O-groupmutex overlay (its
+// mutexes then are syncshim mutexes). Without it the cooperative scheduler cannot see the group
+// lock and a preempted lock holder would block the whole search.
+func overlayActive() bool {
+	before := syncshim.LockOps.Load()
+	gm := group_mutex.NewGroupMutex()
+	gm.LockMutexForGroup("verif-probe")
+	gm.ReleaseMutex("verif-probe")
+	return syncshim.LockOps.Load() > before
+}
+
 func run(tier string) int {
 	cfg := cfgFor(tier)
 	maporder.Set(0)
+	if !overlayActive() {
+		fmt.Fprintln(os.Stderr, "harness error: the O-groupmutex overlay is not part of this build (group_mutex.go still imports the real sync package): run /verif/overlays/gen_groupmutex.sh and build with the overlay.json it writes")
+		return 2
+	}
 	if idx, n, isWorker := engine.WorkerShard(); isWorker {
 		return runWorker(tier, cfg, idx, n)
 	}
@@ -506,6 +523,10 @@ func replay(path string) int {
 		return 2
 	}
 	maporder.Set(0)
+	if !overlayActive() {
+		fmt.Fprintln(os.Stderr, "harness error: the O-groupmutex overlay is not part of this build")
+		return 2
+	}
 	found := false
 	switch v.Replay.Part {
 	case "history":
